@@ -244,15 +244,22 @@ def _write(p2, fmt, df, kind):
         shutil.rmtree(d, ignore_errors=True)
 
 
-def roundtrip(rows, path, io_kinds=None):
+def roundtrip(rows, path, io_kinds=None, via_fit=False):
     """Final normalised table.  io_kinds = [(input kind, output kind), ...] per step."""
     from rnapolis import parser_v2 as p2
 
     steps = path.split("-")
     kinds = io_kinds or [("str", "return")] * len(steps)
-    text = emit.emit_pdb(rows) if steps[0] == "pdb" else emit.emit_cif(rows)
+    # every other mmCIF-first table carries wide label identifiers (two-character label_asym_id, label_seq_id
+    # beyond 9999) next to author identifiers that fit PDB; the conversion then goes through fit_to_pdb, as
+    # the repository's own tools do - a table that fits must come out of it unchanged
+    wide = steps[0] == "cif" and via_fit
+    text = emit.emit_pdb(rows) if steps[0] == "pdb" else emit.emit_cif(rows, label_asym="wide" if wide else "auth")
     df = _parse(p2, steps[0], text, kinds[0][0])
     for k, fmt in enumerate(steps[1:], 1):
+        if fmt == "pdb" and via_fit:
+            _cur["rec"].count("io:fit_to_pdb-before-write_pdb")
+            df = p2.fit_to_pdb(df)
         text = _write(p2, fmt, df, kinds[k][1])
         df = _parse(p2, fmt, text, kinds[k][0])
     return norm_df(df)
@@ -329,7 +336,7 @@ def run_case(case, rec):
     elif fam == "generated":
         rng = random.Random(f"{seed}:C09:{case['i']}")
         path = case["path"]
-        rows = gentab.random_table(rng, blank_chain=(path == "pdb-pdb" and rng.random() < 0.15), null_occ=False)
+        rows = gentab.random_table(rng, blank_chain=(path == "pdb-pdb" and rng.random() < 0.15), null_occ=False, hetero=case["i"] % 3 == 1)
         ctx = {"i": case["i"], "path": path}
     else:
         s = gen3d.load(case["file"])
@@ -351,7 +358,11 @@ def run_case(case, rec):
         ctx = dict(ctx, io=io_kinds)
     _cur["ctx"] = ctx
     try:
-        got = roundtrip(rows, path, io_kinds)
+        via_fit = (hsh >> 3) % 2 == 0 and path != "pdb-pdb"
+        if via_fit:
+            ctx = dict(ctx, via="fit_to_pdb")
+            _cur["ctx"] = ctx
+        got = roundtrip(rows, path, io_kinds, via_fit)
     except Exception as e:
         import traceback
 
